@@ -1201,7 +1201,10 @@ class Connection(object):
                 # re-raise an exception that inherits from ConnectionException
                 raise CrcMismatchException(str(exc), self.endpoint)
         else:
+            # not enough data to read the segment header. reset the buffer pointer at the
+            # beginning to not lose what we previously read.
             self._io_buffer._segment_consumed = False
+            self._io_buffer.io_buffer.seek(0)
 
     def process_io_buffer(self):
         while True:
